@@ -56,7 +56,9 @@ class EventDebouncer(BaseThread):
                 if self.debounce_interval_seconds:
                     # Wait for additional events (or shutdown) until the debounce interval passes.
                     while self.should_keep_running():
-                        if not self._cond.wait(timeout=self.debounce_interval_seconds):
+                        pending = len(self._events)
+                        # An event may slip in right after the wait timed out: that is not a quiet interval.
+                        if not self._cond.wait(timeout=self.debounce_interval_seconds) and len(self._events) == pending:
                             break
 
                 if not self.should_keep_running():
